@@ -583,6 +583,7 @@ def run(ctx):
     declared_virtuals_are_collected(ctx)
     each_base_contributes_its_own_list(ctx)
     function_specifiers_are_recorded_as_written(ctx)
+    abstractness_is_decided_by_the_pure_virtuals(ctx)
 
     # ------------------------------------------------------------ R10.2
     fd = db.fn("InterrogateBuilder::define_struct_type")
@@ -965,3 +966,34 @@ def function_specifiers_are_recorded_as_written(ctx):
     for b in SPECIFIER_FLAGS.values():
         if b not in seen:
             ctx.ob("R10.12", "set_initializer|%s|as-written" % b, False, f.loc(), "%s is never set" % b)
+
+
+def abstractness_is_decided_by_the_pure_virtuals(ctx):
+    """R10.13: a class is abstract iff it has (declares or inherits without overriding) a pure virtual function - nothing else
+    enters: not `final` (a final class that leaves an inherited pure virtual unimplemented is ill-formed to instantiate,
+    hence abstract), not templates, not visibility.  In CPPStructType::is_abstract() every return is reached only after
+    get_pure_virtual_funcs() was asked.  (Seed S11-C10: `if (_final) return false;` in front; such classes became
+    constructible and got constructors exported.)"""
+    db = ctx.db
+    ctx.rule("R10.13", "every return of CPPStructType::is_abstract is reached only through the call of get_pure_virtual_funcs()")
+    fs = [g for g in db.functions if g.name == "CPPStructType::is_abstract"]
+    if not fs:
+        ctx.broken("R10.13: CPPStructType::is_abstract not found")
+        return
+    f = fs[0]
+    asks = [c for c in f.walk() if c.get("k") == "call" and callee_short(c) == "get_pure_virtual_funcs"]
+    first = None
+    for y in f.walk():
+        if f.cfg.locate(y) is not None:
+            first = y
+            break
+    rets = [r for r in f.walk() if r.get("k") == "ret"]
+    n = 0
+    for r in rets:
+        n += 1
+        early = (not asks) or first is None or (f.cfg.locate(first) == f.cfg.locate(r)) or G.reaches_avoiding(f, first, asks, r)
+        if early and asks and any(w is a for a in asks for w in walk(r)):
+            early = False      # `return !funcs.empty()` style with the call inside the returned expression
+        ctx.ob("R10.13", "is_abstract|return@%s|after-the-pure-virtuals-were-collected" % f.loc(r).split(":")[-1], not early, f.loc(r),
+               "decided from the collected pure virtual functions" if not early else "returns without looking at the pure virtual functions")
+    ctx.floor("R10.13", "returns of is_abstract", n, 1)
